@@ -54,43 +54,14 @@ func ruleR14_1(w *World, r *Report) {
 		return
 	}
 	n := 0
-	for _, fn := range w.Fns {
-		if w.PkgName(fn) != "solver" {
-			continue
-		}
-		callsAn := false
-		for _, ci := range callsIn(fn) {
-			for _, c := range w.Callees[ci] {
-				if an[c] {
-					callsAn = true
-				}
-			}
-		}
-		if !callsAn {
-			continue
-		}
-		for _, ci := range callsIn(fn) {
-			call, ok := ci.(*ssa.Call)
-			if !ok || len(w.Callees[call]) == 0 || typeShort(call.Type()) != "*solver.Clause" {
-				continue
-			}
-			var lit ssa.Value
-			lvl1 := false
-			for _, a := range call.Call.Args {
-				if typeShort(a.Type()) == "solver.Lit" {
-					lit = a
-				}
-				if typeShort(a.Type()) == "solver.decLevel" {
-					if v, ok := constInt(a); ok && v == 1 {
-						lvl1 = true
-					}
-				}
-			}
-			if lit == nil || !lvl1 || !derivesFromAnalyser(w, lit, an, 0) {
+	for _, ub := range learnedUnitBindings(w, an) {
+		{
+			fn, call := ub.holder, ub.call
+			if typeShort(call.Type()) != "*solver.Clause" {
 				continue
 			}
 			n++
-			key := fmt.Sprintf("%s top-level binding #%d of a learned literal", w.FuncName(fn), n)
+			key := fmt.Sprintf("%s top-level binding #%d of a learned literal", w.FuncName(ub.loopFn), n)
 			var bad []string
 			// (i) retraction to level 1 dominates
 			retracted := false
@@ -110,24 +81,85 @@ func ruleR14_1(w *World, r *Report) {
 			}
 			// (ii) conflict => concluder
 			concludes := false
-			for _, ref := range *call.Referrers() {
-				bo, ok := ref.(*ssa.BinOp)
-				if !ok || bo.Op != token.NEQ || !isNilConst(bo.Y) {
-					// the result may first be stored into the loop's conflict variable (phi): follow one phi
-					continue
+			leadsToConcluder := func(tb *ssa.BasicBlock) bool {
+				for _, ins := range tb.Instrs {
+					if c2, ok := ins.(*ssa.Call); ok {
+						for _, c := range w.Callees[c2] {
+							if concl[c] {
+								return true
+							}
+						}
+					}
 				}
-				for _, r2 := range *bo.Referrers() {
-					iff, ok := r2.(*ssa.If)
-					if !ok {
+				return false
+			}
+			if ub.holder == ub.loopFn {
+				for _, ref := range *call.Referrers() {
+					bo, ok := ref.(*ssa.BinOp)
+					if !ok || bo.Op != token.NEQ || !isNilConst(bo.Y) {
+						// the result may first be stored into the loop's conflict variable (phi): follow one phi
 						continue
 					}
-					tb := iff.Block().Succs[0]
-					for _, ins := range tb.Instrs {
-						if c2, ok := ins.(*ssa.Call); ok {
-							for _, c := range w.Callees[c2] {
-								if concl[c] {
-									concludes = true
+					for _, r2 := range *bo.Referrers() {
+						if iff, ok := r2.(*ssa.If); ok && leadsToConcluder(iff.Block().Succs[0]) {
+							concludes = true
+						}
+					}
+				}
+			} else {
+				// the helper answers a boolean made of `binding == nil` / `binding != nil` (constants on its early exits);
+				// the loop tests that answer and concludes Unsat on the outcome that means conflict
+				okMeansTrue, known := false, false
+				allInstrs(fn, func(ins ssa.Instruction) {
+					ret, isRet := ins.(*ssa.Return)
+					if !isRet || len(ret.Results) != 1 {
+						return
+					}
+					var look func(v ssa.Value)
+					look = func(v ssa.Value) {
+						switch x := v.(type) {
+						case *ssa.Phi:
+							for _, e := range x.Edges {
+								look(e)
+							}
+						case *ssa.BinOp:
+							if x.X == ssa.Value(call) && isNilConst(x.Y) && (x.Op == token.EQL || x.Op == token.NEQ) {
+								okMeansTrue, known = x.Op == token.EQL, true
+							}
+						}
+					}
+					look(ret.Results[0])
+				})
+				if known {
+					for _, ref := range *ub.site.Referrers() {
+						cond, pol := ssa.Value(ub.site), true // pol: the tested value is true when the helper's answer is true
+						var iffs []*ssa.If
+						switch x := ref.(type) {
+						case *ssa.If:
+							iffs = append(iffs, x)
+						case *ssa.UnOp:
+							if x.Op == token.NOT {
+								cond, pol = x, false
+								for _, r2 := range *x.Referrers() {
+									if iff, ok := r2.(*ssa.If); ok {
+										iffs = append(iffs, iff)
+									}
 								}
+							}
+						}
+						_ = cond
+						for _, iff := range iffs {
+							// the successor taken when the helper's answer means conflict
+							answerTrueEdge := 0
+							if !pol {
+								answerTrueEdge = 1
+							}
+							conflictEdge := answerTrueEdge
+							if okMeansTrue {
+								conflictEdge = 1 - answerTrueEdge
+							}
+							if leadsToConcluder(iff.Block().Succs[conflictEdge]) {
+								concludes = true
 							}
 						}
 					}
@@ -138,6 +170,7 @@ func ruleR14_1(w *World, r *Report) {
 			}
 			// (iii) heap rebuilt before the next decision: a rebuild call reachable from the binding within the loop,
 			// on every path from the binding to the next chooseLit-like call (a call returning Lit without arguments)
+			fn, call = ub.loopFn, ub.site
 			var header *ssa.BasicBlock
 			for _, h := range loopHeaders(fn) {
 				if loopBlocks(fn, h)[call.Block()] && (header == nil || loopBlocks(fn, h)[header]) {
